@@ -152,6 +152,35 @@ def ast_kind(node, names: dict):
             return _join(ks) if ks else "static"
         if isinstance(node.func, _ast.Attribute) and node.func.attr == "item":
             return "static"
+        # a helper function of the same module with a straight-line body (assignments to names, then return): the kind
+        # of what it returns for arguments of these kinds
+        mod = names.get("__module__")
+        depth = names.get("__depth__", 0)
+        if mod is not None and depth < 3 and isinstance(node.func, _ast.Name) and node.func.id in getattr(mod, "functions", {}) \
+                and node.func.id not in names:
+            fn = mod.functions[node.func.id]
+            body = [st for st in fn.body if not (isinstance(st, _ast.Expr) and isinstance(st.value, _ast.Constant))]
+            if body and all(isinstance(st, (_ast.Assign, _ast.Return)) for st in body) and isinstance(body[-1], _ast.Return) \
+                    and not any(isinstance(a_, _ast.Starred) for a_ in node.args) and all(k_.arg for k_ in node.keywords):
+                params = fn.args.posonlyargs + fn.args.args
+                local = {"__module__": mod, "__depth__": depth + 1}
+                for p_ in params + fn.args.kwonlyargs:
+                    local[p_.arg] = "unknown"
+                for p_, a_ in zip(params, node.args):
+                    local[p_.arg] = ast_kind(a_, names)
+                for k_ in node.keywords:
+                    local[k_.arg] = ast_kind(k_.value, names)
+                kinds = []
+                for st in body:
+                    if isinstance(st, _ast.Assign):
+                        if not all(isinstance(t_, _ast.Name) for t_ in st.targets):
+                            return "unknown"
+                        for t_ in st.targets:
+                            local[t_.id] = ast_kind(st.value, local)
+                    elif st.value is not None:
+                        kinds.append(ast_kind(st.value, local))
+                if len(kinds) == 1:
+                    return kinds[0]
         return "unknown"
     if isinstance(node, (_ast.BinOp,)):
         return _join((ast_kind(node.left, names), ast_kind(node.right, names)))
@@ -182,6 +211,7 @@ def init_field_kinds(prog, c):
         st = ann_is_static(_ast.unparse(p.annotation)) if p.annotation is not None else None
         names[p.arg] = "static" if st is True else "array" if st is False else "unknown"
     me = a.args[0].arg if a.args else "self"
+    names["__module__"] = r[0].module
     out = {}
 
     def assign(t, k, lineno):
